@@ -161,7 +161,7 @@ Qed.
 Lemma vgood_close_cb s thr c : vgood s (close_cb s thr c).
 Proof.
   unfold close_cb. destruct (getc s c) as [k|] eqn:Hg; [|exact I]. destruct (k_ccb k).
-  - destruct (negb (s_srv s)); [exact I|]. destruct (thr =? 0); [apply vgood_remove_in_loop|apply vgood_ret, same_v_enq].
+  - destruct (negb (s_srv s) && (thr =? 0)); [exact I|]. destruct (thr =? 0); [apply vgood_remove_in_loop|apply vgood_ret, same_v_enq].
   - destruct (negb (s_cli s)); [exact I|]. destruct (negb (thr =? 0)); [exact I|]. destruct (s_cliconn s) as [c'|]; [|exact I].
     destruct (negb (c' =? c)); [exact I|]. apply vgood_ret.
     apply (same_v_trans _ (put s c (set_own k CbClient false (k_urefs k) (k_delayed k)))).
